@@ -503,7 +503,7 @@ def sh_tensor_sq(rng, big):
 
 
 def brk_part(rng, d, big):
-    d["bsize"] = rng.range(1, 4 if not big else 12)
+    d["bsize"] = rng.range(2, 4 if not big else 12)       # a GGSW needs size > dsize
     d["bdnum"] = rng.range(1, d["bsize"])
     d["bb2k"] = rng.choice(RADICES)
     d["block"] = rng.choice([1, 2, 3])
@@ -538,7 +538,8 @@ def cbt_part(rng, big):
     d.update({"krin": r, "krout": r, "ksize": rng.range(2, 5), "kb2k": rng.choice(RADICES), "dsize": 1})
     d["dnum"] = rng.range(1, d["ksize"])
     d.update({"size": rng.range(2, 4), "b2k": rng.choice(RADICES)})
-    d["rdnum"] = rng.range(1, d["size"])
+    # the LUT of the circuit bootstrapping holds 2^(b2k·(rdnum-1)) (asserted < 2^64; `lut.set` wants b2k·rdnum within i64)
+    d["rdnum"] = rng.range(1, max(1, min(d["size"], 56 // d["b2k"])))
     d.update({"tsize": rng.range(2, 5), "tb2k": rng.choice(RADICES), "tdsize": 1})
     d["tdnum"] = rng.range(1, d["tsize"])
     d["natk"] = 5
@@ -563,6 +564,11 @@ def sh_bdd_key(rng, big):
 
 def sh_fhe_uint_prepare(rng, big):
     d = sh_bdd_key(rng, big)
+    # block = 1 selects `execute_standard`, whose debug assertion `lwe.n() == brk.n_lwe()` rejects the LWE that
+    # `fhe_uint_prepare` extracts (taken with the GLWE's degree): block-binary keys only
+    if d["block"] == 1:
+        d["block"] = 2
+        d["nlwe"] = 2 * rng.range(1, 3)
     d.update({"arank": d["rank"], "asize": rng.range(1, 3), "ab2k": rng.choice(RADICES), "threads": rng.range(1, 3),
               "bitsper": rng.range(1, 2), "idx": 1})
     return d
@@ -570,6 +576,7 @@ def sh_fhe_uint_prepare(rng, big):
 
 def sh_bdd_rot(rng, big):
     d = sh_cmux(rng, big)
+    d["size"] = max(d["size"], 2)          # the GGSW forms need size > dsize
     d.update({"bitmask": rng.range(1, 3), "cells": rng.range(1, 4), "steps": rng.range(1, 4)})
     return d
 
@@ -611,12 +618,15 @@ def sh_ckks_mul_pt(rng, big):
     d["rank"] = d["arank"] = 1
     d["eb"] = d["bsize"]
     d["off"] = min(d["ea"], d["eb"]) * d["b2k"]
+    d["ptk"] = d["bsize"] * d["b2k"]       # CKKSMeta of the plaintext: min_k = bsize limbs
     return d
 
 
 def sh_ckks_all(rng, big):
     d = sh_ckks_mul(rng, big)
     d["bsize"] = rng.range(1, 4)
+    d["ptk"] = d["bsize"] * d["b2k"]
+    d.update({"arank": d["rank"], "asize": d["size"], "ab2k": d["b2k"]})
     d.update({"krin": d["rank"], "krout": d["rank"], "ksize": rng.range(2, 6), "kb2k": d["b2k"], "dsize": 1})
     d["dnum"] = rng.range(1, d["ksize"])
     return d
@@ -911,6 +921,40 @@ CORPUS.append(("lwe_decrypt", ALL, 16, dict(size=6, b2k=13, nlwe=3)))
 CORPUS.append(("split_mut", ALL, 8, dict(cnt=2, len=320144)))                   # the bin-fhe per-thread size reported by slice C20
 
 
+# operations whose result is a GGSW (size > dsize) although their shape has no `rdnum`
+GGSW_RESULT = {"ggsw_to_ggsw_blind_rotation", "scalar_to_ggsw_blind_rotation", "glwe_blind_rotation", "glwe_blind_selection", "retrieve"}
+# operations with a costly set-up (key generation): fewer shapes
+HEAVY = {"circuit_bootstrapping_execute", "circuit_bootstrapping_key_encrypt_sk", "circuit_bootstrapping_key_prepare", "bdd_key_encrypt_sk",
+         "prepare_bdd_key", "fhe_uint_prepare", "bdd_2w_to_1w", "execute_bdd", "blind_rotation_execute", "blind_rotation_key_prepare"}
+
+
+def fixup(op, d):
+    """dependent fields after the boundary class changed the sizes: effective limb counts never exceed their operand"""
+    if "ea" in d:
+        if op == "glwe_mul_plain_assign":
+            d["eb"] = max(1, min(d["eb"], d["size"]))
+            d["ea"] = max(1, min(d["ea"], d["bsize"]))
+        elif op.startswith("ckks_mul") and "asize" not in d or op in ("ckks_square", "ckks_composite_ct", "ckks_dot_product_ct", "ckks_all_ops",
+                                                                      "ckks_all_ops_with_atk"):
+            d["ea"] = max(1, min(d["ea"], d["size"]))
+            d["eb"] = max(1, min(d["eb"], d["size"]))
+        else:
+            d["ea"] = max(1, min(d["ea"], d["asize"]))
+            d["eb"] = max(1, min(d["eb"], d["bsize"]))
+        if "ptk" in d and "bsize" in d:
+            d["ptk"] = d["bsize"] * d["b2k"]
+        # unchecked precondition of the products: the offset lies inside the product (cnv_offset_hi <= a + b limbs);
+        # beyond it `a_size + b_size - cnv_offset_hi` wraps
+        rad = d.get("ab2k", d["b2k"]) if op != "glwe_mul_plain_assign" else d["b2k"]
+        lim = (2 * d["ea"] if op == "glwe_tensor_square_apply" else d["ea"] + d["eb"])
+        d["off"] = min(d["off"], (lim + 1) * rad - 1)
+    if "bdnum" in d:
+        d["bdnum"] = min(d["bdnum"], d["bsize"])
+    if "rdnum" in d and "size" in d and "block" in d:
+        d["rdnum"] = max(1, min(d["rdnum"], d["size"], 56 // d["b2k"]))
+    return d
+
+
 def fail_key(op, n):
     """stable key of an exact-window failure: per operation for realistic rings; one class for N < 8"""
     if op == "split_mut":
@@ -1007,7 +1051,7 @@ def run(ctx):
             be = bes[i % len(bes)]
             n = 1 << r.range(3, 16)
             cases.append(dict(op=op, be=be, n=n, shape=gen(r, True), mis=0, win=None, kind="tb"))
-        for i in range(n_shapes):
+        for i in range(n_shapes if op not in HEAVY else max(len(bes), n_shapes // 5)):
             be = bes[i % len(bes)]
             ns = [x for x in small_n if x >= nmin and (x >= 2 or fam(be) == "ntt120")]
             if fam(be) == "fft64" and (op in USES_VMP or op.startswith("glwe_mul_const")):
@@ -1019,14 +1063,18 @@ def run(ctx):
                 logn = n.bit_length() - 1
                 shape["gap"] = r.range(0, logn)
                 shape["rounds"] = logn - shape["gap"]
+            if op == "bdd_2w_to_1w":                  # packing of the 32 output bits: log_gap = log_n - 5
+                shape["rounds"] = 5
+                shape["iters"] = n.bit_length() - 1 - 5
             if i < len(bes):                          # boundary class: single-limb operands, once per back end
-                lo = 2 if "rdnum" in shape else 1      # matrix operands need size > dsize
+                lo = 2 if ("rdnum" in shape or op in GGSW_RESULT) else 1      # matrix operands need size > dsize
                 for f in ("size", "asize", "pksize", "bsize", "lsize", "alsize"):
                     if f in shape:
-                        shape[f] = lo
+                        shape[f] = 2 if (f == "bsize" and "bdnum" in shape) else lo
                 if "rdnum" in shape:
                     shape["rdnum"] = shape["adnum"] = 1 if "adnum" in shape else shape["rdnum"]
                 n = max(n, 8) if i % 2 == 0 else n
+            fixup(op, shape)
             if not runnable:
                 cases.append(dict(op=op, be=be, n=n, shape=shape, mis=0, win=None, kind="tb"))
                 continue
